@@ -66,6 +66,14 @@ def build(ch, with_options=True):
     d.add_surface(4, 'py', [-4.0]); d.add_surface(5, 'py', [4.0])
     d.add_surface(21, 'px', [-2.5]); d.add_surface(22, 'py', [0.5]); d.add_surface(23, 'pz', [1.0])
     d.add_surface(24, 'p', [1.0, 1.0, 0.0, 0.5]); d.add_surface(25, 'py', [-1.0])
+    # universe 1 may be bounded by facets of a macrobody instead of plain planes (same loci)
+    facets = ch.choose('u1-by-facets', [False, True])
+    if facets:
+        d.surfcards[50] = 'rpp -30 -2.5 -30 0.5 -30 30'
+        d.refsurfs[('f', 50, 1)] = refsem.mcnp_surface('px', [-2.5])
+        d.refsurfs[('f', 50, 3)] = refsem.mcnp_surface('py', [0.5])
+    s21p, s21m = (('f', 50, 1), ('f', -50, 1)) if facets else (21, -21)
+    s22p, s22m = (('f', 50, 3), ('f', -50, 3)) if facets else (22, -22)
     depth = ch.choose('depth', [1, 2, 3])
     ncell = ch.choose('ncell', [2, 3])
     fill10 = ch.choose('fill10', [True, False])
@@ -105,10 +113,10 @@ def build(ch, with_options=True):
     d.add_cell(HCell(19, ('*', ('^', 10), ('^', 11)), imp=imp19))
     # universe 1
     if ncell == 2:
-        u1 = [HCell(31, -21, mat=1, rho='-2.7', u=1), HCell(32, 21, mat=2, rho='-1.0', u=1)]
+        u1 = [HCell(31, s21m, mat=1, rho='-2.7', u=1), HCell(32, s21p, mat=2, rho='-1.0', u=1)]
     else:
-        u1 = [HCell(31, -21, mat=1, rho='-2.7', u=1), HCell(32, ('*', 21, -22), mat=2, rho='-1.0', u=1),
-              HCell(33, ('*', 21, 22), mat=3, rho='-0.5', u=1)]
+        u1 = [HCell(31, s21m, mat=1, rho='-2.7', u=1), HCell(32, ('*', s21p, s22m), mat=2, rho='-1.0', u=1),
+              HCell(33, ('*', s21p, s22p), mat=3, rho='-0.5', u=1)]
     if utrcl != 'none':
         # moving one cell of a universe breaks the partition; move all of them alike
         for c in u1:
@@ -180,8 +188,8 @@ def scenarios(tier):
 
 
 def canaries():
-    from ..explore import Chooser
-    st = build(Chooser((1, 0, 0, 0, 2)))
+    from ..explore import PresetChooser
+    st = build(PresetChooser({'depth': 1, 't10': 2}))
     return [('c05-baseline', check_state('trees', st)['ok']),
             ('c05-swapped-provenance-detected', not check_state('trees', st, corrupt='swap')['ok'])]
 
